@@ -218,6 +218,13 @@ func (cli *Client) EnrollContext(c net.Conn, ctx any) (Conn, error) {
 	if e != nil {
 		return nil, e
 	}
+	// The duplicate belongs to nobody until the connection is handed to an event-loop.
+	handedOver := false
+	defer func() {
+		if !handedOver {
+			_ = unix.Close(dupFD)
+		}
+	}()
 
 	if cli.opts.SocketSendBuffer > 0 {
 		if err = socket.SetSendBuffer(dupFD, cli.opts.SocketSendBuffer); err != nil {
@@ -277,6 +284,7 @@ func (cli *Client) EnrollContext(c net.Conn, ctx any) (Conn, error) {
 	gc.SetContext(ctx)
 	gc.SetSafeContext(ctx)
 
+	handedOver = true
 	connOpened := make(chan struct{})
 	ccb := &connWithCallback{c: gc, cb: func() {
 		close(connOpened)
